@@ -11,9 +11,9 @@ LMAX = {"quick": 3, "thorough": 5}
 SHARDS = {"quick": 8, "thorough": 14}
 NDOC = {"quick": 300, "thorough": 20000}
 EXHAUSTIVE = {"quick": True, "thorough": True}
-RULE = ("EXHAUSTIVE over all sequences of length <= L (L=3 quick, 5 thorough) over an alphabet of 20 "
+RULE = ("EXHAUSTIVE over all sequences of length <= L (L=3 quick, 5 thorough) over an alphabet of 21 "
         "citation kinds, each kind a real object extracted by get_citations from a canonical snippet and "
-        "shallow-copied per use (distinct objects); plus random longer sequences over 34 kinds and every "
+        "shallow-copied per use (distinct objects); plus random longer sequences over 41 kinds and every "
         "list extracted from generated multi-case documents; oracle = structural checker (identity, order, "
         "disjointness, first element full, every full citation under exactly one resource, sharing iff "
         "independent keys equal, no unknown citations); non-trivial = sequence containing a full citation; "
@@ -21,8 +21,8 @@ RULE = ("EXHAUSTIVE over all sequences of length <= L (L=3 quick, 5 thorough) ov
 ASSUMPTIONS = ["independent key of a case citation = (volume, page, guessed-edition-or-written reporter); "
                "law/journal = all groups + candidate editions (anchors: ResourceCitation.__hash__)",
                "exhaustive for the stated alphabet and bound only"]
-FLOORS = {"quick": {"sequences": 8420, "extracted_lists": 500, "full_pairs_compared": 5000},
-          "thorough": {"sequences": 3368420, "extracted_lists": 30000, "full_pairs_compared": 2000000}}
+FLOORS = {"quick": {"sequences": R.n_sequences(3), "extracted_lists": 500, "full_pairs_compared": 5000},
+          "thorough": {"sequences": R.n_sequences(5), "extracted_lists": 30000, "full_pairs_compared": 2000000}}
 
 
 def plan(tier, seed):
